@@ -28,6 +28,7 @@ def run(ctx, report):
     report.section("argument order", argument_order, ctx, report)
     report.section("label stores", label_stores, ctx, report)
     report.section("SAMI language classes", sami_language_classes, ctx, report)
+    report.section("SAMI paragraph language", sami_paragraph_language, ctx, report)
     from . import markup_writer_fold
     report.section("written documents", markup_writer_fold.run, ctx, report, {"langs": ("R-DOC-LANGS", "1")})
     from . import dfxp_reader_fold
@@ -304,6 +305,39 @@ def label_stores(ctx, report):
     report.check(not extra, "R-WHO-WRITES", ("pycaption/sami.py", "SAMIParser"),
                  "a language is listed only when a paragraph of that language is met (order of first appearance)",
                  {"routines_adding_languages": sorted(set(writers)), "unexpected": extra}, "1")
+
+
+def sami_paragraph_language(ctx, report):
+    """SAMIParser._find_lang folded on attribute lists: a paragraph's language is the one its lang attribute gives, or the one
+    its class declares in the stylesheet; a class that declares none does not hide a lang attribute beside it"""
+    from ..core.constfold import Folder, Stub, FoldRaise
+    folder = ctx.memo("folder", lambda: Folder(ctx.index))
+    fl = ctx.index.get_function("pycaption/sami.py", "SAMIParser._find_lang")
+    report.covered(fl)
+    sheet = {"encc": {"lang": "en"}, "frcc": {"lang": "fr", "color": "red"}, "yellow": {"color": "#ffff00"}}
+    cases = [
+        ("lang attribute", [("lang", "fr")], "fr"),
+        ("class that declares a language", [("class", "FRCC")], "fr"),
+        ("class the stylesheet does not know, then lang", [("class", "nosuch"), ("lang", "fr")], "fr"),
+        ("class that declares no language, then lang", [("class", "yellow"), ("lang", "fr")], "fr"),
+        ("lang, then a class without language", [("lang", "fr"), ("class", "yellow")], "fr"),
+        ("other attributes around", [("id", "x"), ("class", "encc"), ("style", "color:red")], "en"),
+        ("neither", [("id", "x")], None),
+        ("class without language only", [("class", "yellow")], None),
+    ]
+    bad = []
+    for label, attrs, want in cases:
+        try:
+            got = folder.call_function(fl, [list(attrs)], {}, self_value=Stub("parser", {"styles": {k: dict(v) for k, v in sheet.items()}},
+                                                                                cls=fl.cls))
+        except FoldRaise as e:
+            got = f"raises {e.exc_name}"
+        except AnalysisError as e:
+            raise AnalysisError(f"SAMIParser._find_lang cannot be folded on '{label}': {e}")
+        if got != want:
+            bad.append({"paragraph": label, "attributes": attrs, "language_found": got, "required": want})
+    report.check(not bad, "R-LABEL", fl, "a SAMI paragraph's language: its lang attribute, or the language its class declares",
+                 {"cases_folded": len(cases), "mismatches": bad[:3]}, "2")
 
 
 def sami_language_classes(ctx, report):
